@@ -371,7 +371,7 @@ class TokenizerState:
 
     def add_prog(self, start: int, end: int, **kwargs: Any) -> None:
         self.end_progs.append(
-            EndProg(text=self.line[start:end], contline=self.line, start=(self.lnum, start), **kwargs)
+            EndProg(text=self.line[start:end], start=(self.lnum, start), **kwargs)
         )
 
     def prog_token(self, end: int, tok: Token) -> TokenInfo:
@@ -379,7 +379,7 @@ class TokenizerState:
         endprog.join(self, end)
         self.pos = end
         epos = (self.lnum, end)
-        return TokenInfo(tok, endprog.text, endprog.start, epos, endprog.contline)
+        return TokenInfo(tok, endprog.text, endprog.start, epos, endprog.contline + self.line)
 
     def match(self, pattern: str | re.Pattern[str]) -> re.Match[str] | None:
         pattern = _compile(pattern) if isinstance(pattern, str) else pattern
@@ -424,7 +424,7 @@ class EndProg:
     mode: Mode | None = None
     pattern: re.Pattern[str] | str = ""  # end pattern
     text: str = ""
-    contline: str = ""  # str
+    contline: str = ""  # the physical lines the token has consumed before the current one
     start: tuple[int, int] = (0, 0)
     quote: str = ""
 
